@@ -91,7 +91,7 @@ def spec(draw):
         c["w"] = draw(S.uni(S.LO_U, S.HI_U))
         c["fold"] = draw(st.integers(0, 1))
     elif k in ("duration", "absduration"):
-        c["args"] = draw(dur_args)
+        c["args"] = draw(st.one_of(dur_args, dur_args, S.ym_cancel_args()))
     elif k in ("interval", "date_interval"):
         c["z2"] = draw(S.zones())
         c["u1"] = draw(st.one_of(S.instant_near_transition(z), S.uniform_instant()))
